@@ -331,23 +331,26 @@ def check_programs(ctx, stream, cls, progs, nvars, oracle=True):
         stream.case(case)
         for st in p:
             stream.count('stmt:' + st[0] + (':' + str(st[2]) if st[0] in ('bin', 'sbin', 'iop', 'isop') else ''))
-        n_ok = 0
+        # statements up to the first point where values leave the exact range (of either side)
+        n_exact = len(p)
         for i, (a, b) in enumerate(zip(io, mo)):
-            if not isinstance(b, dict) and big(b):
+            if (not isinstance(b, dict) and big(b)) or (not isinstance(a, dict) and big(a)):
                 stream.discards += 1
+                n_exact = i
                 break
+        for i, (a, b) in enumerate(zip(io[:n_exact], mo[:n_exact])):
             if isinstance(a, dict) or isinstance(b, dict):
                 stream.count('error:' + (a.get('error') if isinstance(a, dict) else 'none'))
                 if a != b:
                     stream.disagree('error kind at statement %d' % i, case, a, b)
                     break
-                n_ok = i + 1
                 continue
             if canon_snap(a) != canon_snap(b):
                 stream.disagree('terms after statement %d (%s)' % (i, show(p[i])), case,
                                 a, b)
                 break
-            n_ok = i + 1
+        # the oracles below never look at the Model: they run on the whole exact prefix
+        n_ok = n_exact
         pre = p[:n_ok]
         ipre = io[:n_ok]
         # canonical form of every stored result (qubit / ising / majorana)
@@ -420,6 +423,37 @@ def replay(ctx, payload):
     for x in st.violations + st.disagreements:
         print('replay:', x['what'])
     return not (st.violations or st.disagreements)
+
+
+def shrink(ctx, v):
+    """delta debugging on the statement list of a violating program"""
+    inp = v.get('input') or {}
+    if 'prog_enc' not in inp:
+        return v
+    cls, nvars = inp['cls'], inp['nvars']
+    prog = [dec_stmt(cls, st) for st in inp['prog_enc']]
+
+    def fails(pr):
+        st = Stream('shrink', '')
+        try:
+            check_programs(ctx, st, cls, [pr], nvars)
+        except Exception:
+            return None
+        return st.violations[0] if st.violations else None
+    best = fails(prog)
+    if best is None:
+        return v
+    changed = True
+    while changed and len(prog) > 1:
+        changed = False
+        for i in reversed(range(len(prog))):
+            cand = prog[:i] + prog[i + 1:]
+            r = fails(cand)
+            if r is not None:
+                prog, best, changed = cand, r, True
+                break
+    best['shrunk_from_statements'] = len(inp['prog_enc'])
+    return best
 
 
 # ---------------------------------------------------------------- streams
